@@ -239,7 +239,9 @@ def parseMw (j : Json) : MwIn :=
   let rq := parseRq j true
   let env : Env := envOf (getStr j "route" == "ok") rq.o rq.op (fun s => rq.declared.contains s)
                      (fun s => rq.accepted.contains s)
-                     (respOKOf entries (getBool doc "includeStatus") (getBool doc "excludeRespBody"))
+                     -- ValidateResponse returns nil for every response to a HEAD request
+                     (if getBool j "head" && !rq.op.hasBody then fun _ _ _ => true
+                      else respOKOf entries (getBool doc "includeStatus") (getBool doc "excludeRespBody"))
                      (getStr j "transport" == "server")
   { cfg := cfg, env := env, ops := ops, rq := rq, entries := entries }
 
@@ -279,6 +281,7 @@ def renderMw (j : Json) (p : MwIn) (o : Outcome) : Json :=
     (if errfn != "default" && vopts.isEmpty then ["cb.err." ++ errfn] else []) ++
     (if getStr j "logfn" == "default" && vopts.isEmpty then ["cb.log.default"] else []) ++
     (if getStr j "transport" == "server" then ["tr.server"] else []) ++
+    (if getBool j "head" then ["req.head"] else []) ++
     (["rcfl", "ws", "copy", "probe"].filter (hasOpKind rawOps)).map ("ops.iface." ++ ·) ++
     (if !excl.isEmpty && env.routeFound && env.reqOK then ["mw.info_" ++ (if strict then "strict" else "warn")] else []) ++
     (vopts.map (fun o => "opt." ++ getStr o "o" ++ (if getStr o "o" == "onerr" then "." ++ getStr o "kind" else ""))).eraseDups ++
